@@ -128,10 +128,12 @@ def isInterface : RefVal → Bool
 def refModesWritten (m : MDesc) : Bool :=
   allSpaces (fun i => i.refs.all (fun r => isInterface r.val || r.mode == .auto)) m.spaces
 def RefModesWritten (m : MDesc) : Prop := refModesWritten m = true
+instance (m : MDesc) : Decidable (RefModesWritten m) := by unfold RefModesWritten; exact inferInstance
 
 /-- C04-derived-input: no input value sits in a derived cells -/
 def noDerivedInputs (m : MDesc) : Bool := allSpaces (fun i => i.derivedInputs.isEmpty) m.spaces
 def NoDerivedInputs (m : MDesc) : Prop := noDerivedInputs m = true
+instance (m : MDesc) : Decidable (NoDerivedInputs m) := by unfold NoDerivedInputs; exact inferInstance
 
 def formulaIsNode : Formula → Bool
   | .lambda _ => true
@@ -142,6 +144,7 @@ def defTextIsNode (m : MDesc) : Bool :=
   allSpaces (fun i => i.cells.all (fun c => formulaIsNode c.formula) &&
     (match i.formula with | some f => formulaIsNode f | none => true)) m.spaces
 def DefTextIsNode (m : MDesc) : Prop := defTextIsNode m = true
+instance (m : MDesc) : Decidable (DefTextIsNode m) := by unfold DefTextIsNode; exact inferInstance
 
 def stmtsClean (l : List Stmt) : Bool := l.all (fun s => (markerIn (stmtText s)).isNone)
 
@@ -158,6 +161,7 @@ end
 another line -/
 def noMarkerInText (m : MDesc) : Bool := stmtsClean (modelStmts m) && spacesClean m.name [] m.spaces
 def NoMarkerInText (m : MDesc) : Prop := noMarkerInText m = true
+instance (m : MDesc) : Decidable (NoMarkerInText m) := by unfold NoMarkerInText; exact inferInstance
 
 /-- the base lists added one space after the other in tree order: every intermediate graph has a
 linearisation for every space -/
@@ -168,6 +172,7 @@ def basesPass (ctx : Ctx) : BaseRel → BaseRel → Bool
 /-- C04-bases-order -/
 def noBasesOrderConflict (m : MDesc) : Bool := basesPass (ctxOf m) [] (baseDefs m)
 def NoBasesOrderConflict (m : MDesc) : Prop := noBasesOrderConflict m = true
+instance (m : MDesc) : Decidable (NoBasesOrderConflict m) := by unfold NoBasesOrderConflict; exact inferInstance
 
 /-- the references created one after the other in tree order: `g done owner ref` holds each time -/
 def refsPass (g : List (Path × Name) → Path → RefD → Bool) : List (Path × Name) → List (Path × RefD) → Bool
@@ -179,6 +184,7 @@ space that already has the name -/
 def noRefOverrideOrder (m : MDesc) : Bool :=
   refsPass (fun done p r => p == [] || !refConflict (ctxOf m) (baseDefs m) done p r.name) [] (refDefs m)
 def NoRefOverrideOrder (m : MDesc) : Prop := noRefOverrideOrder m = true
+instance (m : MDesc) : Decidable (NoRefOverrideOrder m) := by unfold NoRefOverrideOrder; exact inferInstance
 
 def relTarget (r : RefD) : Option Path :=
   match r.val, r.mode with
@@ -193,6 +199,7 @@ def noRelRefOverrideOrder (m : MDesc) : Bool :=
      | some t => !relConflict (ctxOf m) (baseDefs m) done p r.name t
      | none => true)) [] (refDefs m)
 def NoRelRefOverrideOrder (m : MDesc) : Prop := noRelRefOverrideOrder m = true
+instance (m : MDesc) : Decidable (NoRelRefOverrideOrder m) := by unfold NoRelRefOverrideOrder; exact inferInstance
 
 /-- the description avoids the triggers of all recorded findings of C04 that it can express -/
 structure Hk (m : MDesc) : Prop where
